@@ -22,6 +22,10 @@ def Constraint.WF : Constraint → Prop
   | .enum vs => ∀ v ∈ vs, I64 v
   | .unconstrained => True
 
+instance (m : TextMap) : Decidable m.WF := by unfold TextMap.WF keys; infer_instance
+instance (t : DataType) : Decidable t.WF := by cases t <;> (simp only [DataType.WF]; infer_instance)
+instance (c : Constraint) : Decidable c.WF := by cases c <;> (simp only [Constraint.WF]; infer_instance)
+
 structure PrmDef.WF (f : PrmDef) : Prop where
   name : Clean f.name
   dataType : f.dataType.WF
